@@ -101,6 +101,10 @@ fn main() {
         }
         return;
     }
+    if args[0] == "--probe-handler-panic" {
+        probe::handler_panic();
+        return;
+    }
     if args[0] == "--probe-governor" {
         probe::governor_burst();
         return;
